@@ -227,7 +227,7 @@ class CellVetoEventHandler(EventHandlerWithBoundingPotential, Initializer, metac
         relative_cell = walker.sample_cell()
         self._bounding_event_rate = (
                 self._derivative_bounds[relative_cell][direction_of_motion][bounding_event_rate_index]
-                * charge_factor)
+                * charge_factor * speed)
         assert self._bounding_event_rate > 0.0
         target_cell = self._cells.translate(active_cell, relative_cell)
         # TODO add a seeding option at each place a random number is used so that we can insert random numbers
